@@ -25,7 +25,7 @@ W = dict(once=0.75, nick=0.6, ref=0.3, formula=0.4, nested=0.06, friend=0.3, fwd
 
 
 DIRECTED6 = [S.stream_once_cluster, S.stream_once_hidden, S.stream_randref_nicks, S.stream_once_cluster_randref, S.stream_once_cluster_randref, S.stream_once_same_table_nick_order, S.stream_once_same_table_nick_order, S.stream_history_rows_hold_once_refs,
-                                S.stream_once_nick_like_once_table, S.stream_once_nick_like_once_table, S.stream_randref_hidden_child, S.stream_once_idle_first]
+                                S.stream_once_nick_like_once_table, S.stream_once_nick_like_once_table, S.stream_randref_hidden_child, S.stream_once_idle_first, S.stream_once_after_lookup]
 
 
 def gen_case(rng, stream=None):
